@@ -1,6 +1,6 @@
 """C05 - honest peers are never rejected and the client converges to the heaviest tip."""
 from engines import KModelOb
-import C01, C11, C14
+import C01, C11, C14, common
 
 ASSUMPTIONS = [
     'DECLINED: "after finitely many exchanges the tip equals the heaviest tip the peers announce" - a liveness statement over unbounded '
@@ -31,4 +31,4 @@ def obligations():
                  '(every requested difficulty is reached inside the last-N section; always so when the peer is exactly last_n + 1 blocks ahead) is accepted', C01.ex_slsp, 'chains of 5 blocks, last-N in {1,2}',
                  cuts=C01.CUTS, timeout=1500, mem_gb=10, min_covers=2, weight=4),
         o2, o2q, o2s, o2m, o3,
-    ]
+    ] + common.shared('C12', ['O12.5-remembered-headers'], 'O5', 'the client remembers the last N proven headers, so that an honest fork shallower than last-N is followed instead of being taken for a long fork')
